@@ -33,6 +33,8 @@ type Config struct {
 	D       *decl.Decl
 	Handler HandlerMode
 	Env     map[string]string
+	// Supplied: options that an earlier source (an INI file read before or during the parse) has provided a value for.
+	Supplied map[*decl.Opt]bool
 	// Prefix: argv is an unfinished command line (completion): no end-of-line checks, and an
 	// argument-taking option at the very end is recorded as pending instead of being a fault.
 	Prefix bool
@@ -62,7 +64,8 @@ type HandlerCall struct {
 	Name    string
 	Arg     *string
 	Tail    []string
-	Cluster bool // the name argument is not asserted for clusters
+	Cluster bool // the name argument is not asserted for clusters, except that it must mention every character of Unknown
+	Unknown []string // cluster: its characters, from the first unknown one on, that name no option in scope
 }
 
 // Fate of one argv token (conservation bookkeeping).
@@ -440,7 +443,15 @@ func (m *clm) stepOption(tok string, at int) bool {
 			for _, a := range applied {
 				m.res.Murky[a] = true
 			}
-			return m.unknown(body, nil, tok, at, utf8.RuneCountInString(body) > 1, name)
+			ok := m.unknown(body, nil, tok, at, utf8.RuneCountInString(body) > 1, name)
+			if n := len(m.res.HandlerCalls); n > 0 && m.cfg.Handler != NoHandler && !m.opt(flags.IgnoreUnknown) {
+				for _, r2 := range body[i:] {
+					if m.short[string(r2)] == nil && r2 != utf8.RuneError {
+						m.res.HandlerCalls[n-1].Unknown = append(m.res.HandlerCalls[n-1].Unknown, string(r2))
+					}
+				}
+			}
+			return ok
 		}
 		applied = append(applied, o)
 		last := i+utf8.RuneLen(r) == len(body)
@@ -676,7 +687,7 @@ func (m *clm) finish() {
 			supplied = append(supplied, o.Marker()) // must not be demanded
 			continue
 		}
-		if len(m.res.Occs[o]) > 0 {
+		if len(m.res.Occs[o]) > 0 || m.cfg.Supplied[o] {
 			supplied = append(supplied, o.Marker())
 			continue
 		}
